@@ -48,7 +48,11 @@ CONSTANTS
                             \* on_new_udp_connection (and withdrawn only if that returns an error);
                             \* FALSE: the intended behaviour (and the code as it is now) - the entry is made after it
     WithHold,               \* model checking: the SOCKS5 server may hold its UDP ASSOCIATE reply
-    EmptyOn                 \* 0 | 1: the environment operations at positions of this parity carry an empty payload (models only)
+    EmptyOn,                \* 0 | 1: the environment operations at positions of this parity carry an empty payload (models only)
+    MaxLen,                 \* the largest payload the association socket carries behind the 10-octet SOCKS5 header
+    BigOn,                  \* 0 | 1 | 2: client datagrams at positions = BigOn (mod 3) are one octet too long (models only; 3 = never)
+    ErrReadNeedsReply,      \* TRUE: the reader meets a pending socket error only when a relayed datagram wakes it (smaller model)
+    WithFault               \* models only: a forged ICMP error about a live association is part of the environment
 
 Key(s, d) == [s |-> s, d |-> d]
 K(f) == Key(Src[f], Dst[f])
@@ -235,6 +239,7 @@ S5LookupMissEndsMux ==
 \* the datagram leaves through the association of its source, addressed to its destination
 SendOk ==
     /\ lpc = "send" /\ rpc = "idle" /\ Src[lcur.f] \in DOMAIN assoc /\ Src[lcur.f] \notin assocErr
+    /\ lcur.len <= MaxLen
     /\ toPeer' = Record(toPeer, [f |-> lcur.f, id |-> lcur.id, to |-> Dst[lcur.f], via |-> Src[lcur.f],
                                  lost |-> relayDown, len |-> lcur.len])
     /\ icmpFly' = IF relayDown THEN icmpFly \cup {Src[lcur.f]} ELSE icmpFly
@@ -246,8 +251,16 @@ SendOk ==
 
 \* the association socket returned its pending error (the relay's port was closed): this
 \* datagram is dropped and not counted, the error is consumed, everything else goes on
+\* the datagram (with its SOCKS5 header) is longer than the association socket carries: EMSGSIZE,
+\* this datagram is dropped and not counted, a pending error stays pending
+SendTooBig ==
+    /\ lpc = "send" /\ rpc = "idle" /\ lcur.len > MaxLen
+    /\ done' = Record(done, [f |-> lcur.f, id |-> lcur.id, out |-> "toobig"])
+    /\ lpc' = "idle" /\ lcur' = Nil
+    /\ UNCHANGED << pipeV, fwdV, inq, rightV, timerV, envV, toPeer, toClient, met, got, everDown, everRefused, everHeld, lifeV >>
+
 SendErr ==
-    /\ lpc = "send" /\ rpc = "idle" /\ Src[lcur.f] \in assocErr
+    /\ lpc = "send" /\ rpc = "idle" /\ lcur.len <= MaxLen /\ Src[lcur.f] \in assocErr
     /\ assocErr' = assocErr \ {Src[lcur.f]}
     /\ done' = Record(done, [f |-> lcur.f, id |-> lcur.id, out |-> "senderr"])
     /\ lpc' = "idle" /\ lcur' = Nil
@@ -327,7 +340,9 @@ AssocError(src) ==
     /\ src \in DOMAIN assoc /\ src \in assocErr
     \* tokio's readable() is not woken by EPOLLERR alone: the reader meets the error when a
     \* relayed datagram makes the socket readable
-    /\ \E k \in KeysOf(src) : rxq[k] # << >>
+    \* (or when it re-enters recv() on readiness cached from an earlier datagram, e.g. after the
+    \* expiry tick restarted it: ErrReadNeedsReply = FALSE admits that as well)
+    /\ ErrReadNeedsReply => \E k \in KeysOf(src) : rxq[k] # << >>
     /\ rclose' = {Key(src, p) : p \in assoc[src]}
     /\ DropAssoc(src)
     /\ rpc' = "close"
@@ -437,6 +452,14 @@ SetStalled(b) ==
     /\ stalled' = b
     /\ UNCHANGED << pipeV, fwdV, leftV, rightV, timerV, now, relayDown, refuse, hold, closing, nextId, histV, lifeV >>
 
+\* an ICMP destination-unreachable of a hard kind (administratively prohibited -> EHOSTUNREACH, ...)
+\* about a datagram of the association of Src[f] is on its way to the association socket
+AssocFault(f) ==
+    /\ alive /\ Op1
+    /\ Src[f] \in DOMAIN assoc /\ Src[f] \in seen
+    /\ icmpFly' = icmpFly \cup {Src[f]} /\ everDown' = TRUE
+    /\ UNCHANGED << pipeV, assoc, gauge, assocErr, seen, rxq, leftV, rightV, timerV, now, relayDown, refuse, hold, stalled, closing, nextId, toPeer, toClient, done, met, got, everRefused, everHeld, lifeV >>
+
 IcmpLands(src) ==
     /\ src \in icmpFly /\ src \in DOMAIN assoc /\ Quiet
     /\ icmpFly' = icmpFly \ {src} /\ assocErr' = assocErr \cup {src}
@@ -455,7 +478,7 @@ ClientCloses ==
 
 Left  == Lookup \/ InsertPipeEntry \/ AssocAddPeer \/ AssocOpenStart \/ AssocOpenDone \/ AssocOpenErr
          \/ OpenCancelled \/ NewConnCancelled \/ NewConnOk \/ NewConnErr
-         \/ RegisterOutgoing \/ S5Lookup \/ S5LookupMissEndsMux \/ SendOk \/ SendErr \/ MetricOut
+         \/ RegisterOutgoing \/ S5Lookup \/ S5LookupMissEndsMux \/ SendOk \/ SendErr \/ SendTooBig \/ MetricOut
 Right == (\E k \in AllKeys : ReadReply(k)) \/ MetricIn \/ RegisterIncoming \/ DnsDone
          \/ (\E k \in AllKeys : DnsPeerClosed(Rev(k))) \/ (\E s \in Sources : DnsAssocRelease(s))
          \/ (\E s \in Sources : AssocError(s)) \/ (\E k \in AllKeys : ReadClose(k))
@@ -470,7 +493,9 @@ EnvQuiet == began /\ (Quiet \/ (Parked /\ hold))
 \* An empty datagram delivers 0 bytes but is a delivery like any other: it reaches the other side,
 \* refreshes the flow's activity and counts as a plain-DNS query / answer
 Lens(f) == IF ops % 2 = EmptyOn THEN {0} ELSE {f}
-EnvDgram  == EnvQuiet /\ \E f \in Flows : \E n \in Lens(f) : ClientDgram(f, nextId, n)
+LensOut(f) == IF ops % 3 = BigOn THEN {MaxLen + 1} ELSE Lens(f)
+EnvFault  == WithFault /\ EnvQuiet /\ inq = << >> /\ \E f \in Flows : AssocFault(f)
+EnvDgram  == EnvQuiet /\ \E f \in Flows : \E n \in LensOut(f) : ClientDgram(f, nextId, n)
 EnvReply  == EnvQuiet /\ \E f \in Flows : \E n \in Lens(f) : PeerReplies(f, nextId, n)
 EnvRelay  == EnvQuiet /\ inq = << >> /\ (RelayDown \/ RelayUp)
 EnvRefuse == EnvQuiet /\ inq = << >> /\ \E b \in BOOLEAN : SetRefuse(b)
@@ -481,7 +506,7 @@ EnvClose  == EnvQuiet /\ inq = << >> /\ ClientCloses
 EnvAdv    == Adv(1)
 \* the stalled client (EnvStall) is explored exhaustively with the direct upstream (UdpMux.tla), where
 \* the right pipe is the same code; here it is only part of the recorded executions
-Env == EnvDgram \/ EnvReply \/ EnvRelay \/ EnvRefuse \/ EnvHold \/ EnvIcmp \/ EnvClose \/ EnvAdv
+Env == EnvFault \/ EnvDgram \/ EnvReply \/ EnvRelay \/ EnvRefuse \/ EnvHold \/ EnvIcmp \/ EnvClose \/ EnvAdv
 
 Next == Impl \/ Env
 Spec == Init /\ [][Next]_vars
@@ -543,7 +568,7 @@ FlowErrorsAreLocal ==
          /\ done[i].out = "connerr" => everRefused
          /\ done[i].out = "senderr" => everDown
          /\ done[i].out = "cancelled" => everHeld
-         /\ (~everRefused /\ ~everDown /\ ~everHeld) => done[i].out = "sent"
+         /\ (~everRefused /\ ~everDown /\ ~everHeld) => done[i].out \in {"sent", "toobig"}
 
 RECURSIVE SumAll(_), SumSent(_)
 SumAll(h)  == IF h = << >> THEN 0 ELSE Head(h).len + SumAll(Tail(h))
